@@ -93,6 +93,10 @@ def make_scenario(rnd, counts, nues_choices=None, fault=None, opts=None):
         gid[-1] &= (0xff << (8 - bits % 8)) & 0xff
     name_len = opts.get("name_len", rnd.choice([1, 2, 7, 75, 150]))
     name = "".join(rnd.choice("ABCDEFGHIJKLMNOPQRSTUVWXYZabcdefghijklmnopqrstuvwxyz0123456789-") for _ in range(name_len))
+    if "det" in opts and name_len >= 7:
+        # the other characters of the PrintableString alphabet (X.680 table 10), a blank among them, inside the name
+        sym = [" ", "=", "'()", "+,", "./:", "?"][opts["det"] % 6]
+        name = name[:2] + sym + name[2 + len(sym):]
     k = [rnd.randrange(256) for _ in range(16)]
     op = [rnd.randrange(256) for _ in range(16)]
     if opts.get("lead0"):
@@ -180,6 +184,7 @@ def make_scenario(rnd, counts, nues_choices=None, fault=None, opts=None):
                 ues[u]["amfId"] = num(1000 + u)
     scn = {"cfg": cfg, "ues": ues, "fault": fault or {"kind": "none", "at": -1, "bytes": []}}
     if "det" in opts:
+        scn["amfName"] = [[ord(c) for c in x] for x in ["AMF 1", "open5gs-amf0", "SubNetwork=1,ManagedElement=AMF (7)/a:b+c.d?'"]][opts["det"] % 3]
         scn["amfOtherPlmn"] = (opts["det"] + 1) % 3           # the AMF serves a second PLMN: listed in front of the gNB's (1), behind it (2), not at all (0)
         if "other_plmn" in opts:
             scn["amfOtherPlmn"] = opts["other_plmn"]           # (fixed by the check where it has too few runs to cycle through the three)
